@@ -416,6 +416,45 @@ func runC06(c *mon.Ctx) {
 							}
 						}
 					}
+					if ver != gmsl.RoomVersionPseudoIDs && caseNo%3 == 0 {
+						// the batch entry point: every event of the batch gets the verdict it gets on its own - also two copies of
+						// one event (same ID from version 3 on) that differ in their signatures, in either order
+						sv := ref.MustParse(final.JSON())
+						sv.Get("signatures").Del(sSender)
+						if stripped, err := impl.NewEventFromTrustedJSON(gen.Plain().Bytes(sv), false); err == nil {
+							for _, order := range [][]gmsl.PDU{{final, stripped}, {stripped, final}, {final, stripped, final}} {
+								var errs []error
+								site, msg, pan := mon.Guard(func() {
+									errs = gmsl.VerifyAllEventSignatures(context.Background(), order, &gmsl.KeyRing{KeyDatabase: db}, userIDForSender)
+								})
+								c.Count("batch_verifications")
+								if pan {
+									c.Failf("verify:panic:"+site, "VerifyAllEventSignatures panics: %s", msg)
+									break
+								}
+								if len(errs) != len(order) {
+									c.Failf("verify:batch:result-count", "VerifyAllEventSignatures returns %d results for %d events", len(errs), len(order))
+									break
+								}
+								bad := false
+								for i, p := range order {
+									wantOK := p == final && verr == nil
+									if (errs[i] == nil) != wantOK {
+										dir := "rejects-valid"
+										if errs[i] == nil {
+											dir = "accepts-invalid"
+										}
+										c.Failf("verify:batch:"+dir+":copy-of-an-event-with-other-signatures", "v%s %s: in a batch of %d (copies of one event, one without the signature of %s) entry %d gets %v, on its own it gets ok=%v", ver, kind.name, len(order), sSender, i, errs[i], wantOK)
+										bad = true
+										break
+									}
+								}
+								if bad {
+									break
+								}
+							}
+						}
+					}
 					if c.WantSample() && faulty {
 						c.Sample(desc)
 					}
